@@ -778,6 +778,15 @@ class Interp:
                 args = [self.ev(a, env, depth) for a in e.get("args") or []]
                 if (recv + args) and isinstance((recv + args)[0], (Ch, int)) and not isinstance((recv + args)[0], bool):
                     return CHAR_MODEL[key](recv + args)
+        for key in (c, decl):
+            # the ASCII classification of a byte is the one of the character with that code
+            if key.startswith("core::num::<impl u8>::") and (_CM + key.rsplit("::", 1)[-1]) in CHAR_MODEL and "ascii" in key:
+                recv = [self.ev(e["recv"], env, depth)] if e.get("k") == "mcall" else []
+                args = [self.ev(a, env, depth) for a in e.get("args") or []]
+                b0 = (recv + args)[0] if (recv + args) else None
+                if isinstance(b0, int) and not isinstance(b0, bool) and 0 <= b0 < 256:
+                    r_ = CHAR_MODEL[_CM + key.rsplit("::", 1)[-1]]([Ch(chr(b0))] + (recv + args)[1:])
+                    return ord(r_.c) if isinstance(r_, Ch) else r_
         # vec![a, b, ..] : box_assume_init_into_vec_unsafe(write_box_via_move(Box::new_uninit(), [a, b, ..]))
         if decl == "alloc::boxed::box_assume_init_into_vec_unsafe" and "vec" in (e.get("mac") or []):
             inner = e["args"][0]
@@ -1026,7 +1035,8 @@ class Interp:
             if name == "ok_or":
                 return ("Ok", v[1]) if is_some else ("Err", a[0])
             return ("Ok", v[1]) if is_some else ("Err", self.apply_closure(a[0], [], depth + 1))
-        if e.get("k") == "mcall" and name in ("or_else", "or", "and_then", "map", "unwrap_or", "unwrap_or_else", "is_some", "is_none") and \
+        if e.get("k") == "mcall" and name in ("or_else", "or", "and_then", "map", "unwrap_or", "unwrap_or_else", "is_some", "is_none", "filter", "is_some_and",
+                                              "unwrap_or_default", "flatten", "and", "xor") and \
                 (decl.startswith("core::option::Option") or c.startswith("core::option::Option")):
             v = self.ev(e["recv"], env, depth)
             is_some = isinstance(v, tuple) and len(v) == 2 and v[0] == "__some"
@@ -1038,6 +1048,27 @@ class Interp:
                 return not is_some
             if name == "or":
                 return v if is_some else self.ev(e["args"][0], env, depth)
+            if name == "and":
+                o_ = self.ev(e["args"][0], env, depth)
+                return o_ if is_some else None
+            if name == "xor":
+                o_ = self.ev(e["args"][0], env, depth)
+                return v if (is_some and o_ is None) else (o_ if (not is_some and o_ is not None) else None)
+            if name == "flatten":
+                if is_some and not (v[1] is None or (isinstance(v[1], tuple) and len(v[1]) == 2 and v[1][0] == "__some")):
+                    raise Unsupported("Option::flatten on %r" % (v,))
+                return v[1] if is_some else None
+            if name == "unwrap_or_default":
+                ty_ = self.f.ty(e.get("ty")) or ""
+                if is_some:
+                    return v[1]
+                if ty_ == "alloc::string::String":
+                    return ""
+                if ty_ in INT_BITS:
+                    return 0
+                if ty_ == "bool":
+                    return False
+                raise Unsupported("unwrap_or_default of %s" % ty_)
             if name == "unwrap_or":
                 return v[1] if is_some else self.ev(e["args"][0], env, depth)
             clo = self.ev(e["args"][0], env, depth)
@@ -1047,6 +1078,10 @@ class Interp:
                 return v[1] if is_some else self.apply_closure(clo, [], depth + 1)
             if name == "and_then":
                 return self.apply_closure(clo, [v[1]], depth + 1) if is_some else None
+            if name == "filter":
+                return v if is_some and self._bool(self.apply_closure(clo, [v[1]], depth + 1)) else None
+            if name == "is_some_and":
+                return bool(is_some and self._bool(self.apply_closure(clo, [v[1]], depth + 1)))
             if name == "map":
                 return ("__some", self.apply_closure(clo, [v[1]], depth + 1)) if is_some else None
         if e.get("k") == "mcall" and decl.startswith("core::bool::<impl bool>::") and name in ("then", "then_some"):
@@ -1056,6 +1091,19 @@ class Interp:
                 return ("__some", x) if b else None
             clo = self.ev(e["args"][0], env, depth)
             return ("__some", self.apply_closure(clo, [], depth + 1)) if b else None
+        if decl in ("core::convert::TryFrom::try_from", "core::convert::TryInto::try_into") and len(e.get("args") or []) + (1 if e.get("k") == "mcall" else 0) == 1:
+            rty_ = self.f.ty(e.get("ty")) or ""
+            m_ = re.match(r"^core::result::Result<(\w+), ", rty_)
+            if m_ and (m_.group(1) in INT_BITS or m_.group(1) == "char"):
+                v0 = self.ev(e["recv"] if e.get("k") == "mcall" else e["args"][0], env, depth)
+                n0 = ord(v0.c) if isinstance(v0, Ch) else (v0 if isinstance(v0, int) and not isinstance(v0, bool) else None)
+                if n0 is not None:
+                    if m_.group(1) == "char":
+                        ok_ = 0 <= n0 < 0x110000 and not (0xD800 <= n0 <= 0xDFFF)
+                        return ("Ok", Ch(chr(n0))) if ok_ else ("Err", Opaque("CharTryFromError"))
+                    bits, signed = INT_BITS[m_.group(1)]
+                    lo_, hi_ = (-(1 << (bits - 1)), (1 << (bits - 1)) - 1) if signed else (0, (1 << bits) - 1)
+                    return ("Ok", n0) if lo_ <= n0 <= hi_ else ("Err", Opaque("TryFromIntError"))
         if decl in ("core::convert::From::from", "core::convert::Into::into") and len(e.get("args") or []) + (1 if e.get("k") == "mcall" else 0) == 1:
             ty_ = self.f.ty(e.get("ty")) or ""
             if ty_ in ("usize", "isize", "u8", "u16", "u32", "u64", "u128", "i8", "i16", "i32", "i64", "i128", "char"):
@@ -1383,5 +1431,7 @@ ITER_BUILTINS = {"chars": _chars, "take": _take, "all": _all, "any": _any,
                  "fold": lambda it, r, a, d: _fold(it, r, a, d), "peek": lambda it, r, a, d: (("__some", list(r)[0]) if list(r) else None),
                  "peekable": lambda it, r, a, d: r, "by_ref": lambda it, r, a, d: r,
                  "collect": lambda it, r, a, d: list(r), "cloned": lambda it, r, a, d: list(r), "copied": lambda it, r, a, d: list(r),
+                 "split_first": lambda it, r, a, d: (("__some", (list(r)[0], list(r)[1:])) if list(r) else None),
+                 "split_last": lambda it, r, a, d: (("__some", (list(r)[-1], list(r)[:-1])) if list(r) else None),
                  "first": lambda it, r, a, d: (("__some", list(r)[0]) if list(r) else None),
                  "last": lambda it, r, a, d: (("__some", list(r)[-1]) if list(r) else None)}
